@@ -123,8 +123,17 @@ func (c *checker) handle(ph phase, outs []workerOutcome) bool {
 		class string
 	}
 	var viols []viol
+	anyViolation := false
+	for _, o := range outs {
+		if o.Violation != nil {
+			anyViolation = true
+		}
+	}
 	for _, o := range outs {
 		if o.Killed {
+			if anyViolation {
+				continue // another worker has a violation to report; a hang next to it is most likely collateral
+			}
 			die2("phase %s: engine process (worker %d) hit the wall-clock watchdog while running %s; stderr:\n%s", ph.Name, o.Worker, o.LastStart, o.Stderr)
 		}
 		if o.Exit == 3 || (o.Exit != 0 && strings.Contains(o.Stderr, "ENGINE-ERROR")) {
@@ -558,6 +567,8 @@ func runReplay(path string) int {
 	n := 1
 	if ph.Mode == "race" {
 		n = 32
+	} else if prop == "C07" {
+		n = 12
 	}
 	raws := make([]json.RawMessage, n)
 	for i := range raws {
